@@ -1,4 +1,5 @@
 import Hertz.Proofs.Bind
+import Hertz.Proofs.BindRefine
 import Hertz.Spec.Bind
 /-!
 # C15 — Binding fills each field from the highest-priority source that carries it
@@ -224,19 +225,165 @@ set_option maxRecDepth 100000 in
 example : (fieldTagInfos { name := [65], ty := tyInt, tags := [(.json, kA), (.header, kA), (.path, kA)] }).map (·.key)
     = [.path, .header, .json] := by decide
 
+/-! ## bind_refines_spec: the model of `Bind` against the declarative specification -/
+
+/-- **Header keys.** `RequestHeader.Peek` compares normalised keys; that is ASCII-case-insensitive
+comparison (`utils.CaseInsensitiveCompare`), for all keys (table facts about `ToLowerTable`/`ToUpperTable`). -/
+theorem header_key_normalisation (a b : Bytes) :
+    H1.normalizeKey false a = H1.normalizeKey false b ↔ H1.ciEq a b = true :=
+  normalizeKey_eq_iff a b
+
+/-- **Getters.** The five getters of `getter.go` / `slice_getter.go` return what the specification calls
+`present` / `presentAll` (form: post arguments, else non-empty multipart value, else query; header keys
+case-insensitive; a path parameter carries a slice only when non-empty). -/
+theorem getters_are_documented_sources (r : Req) (s : Src) (k : Bytes) :
+    getter r s k = asPair (Spec.Bind.present r s k) ∧ sliceGetter r s k = Spec.Bind.presentAll r s k :=
+  ⟨getter_eq r s k, sliceGetter_eq r s k⟩
+
+/-- **Struct tags.** The specification reads a struct tag (`named`: split at commas, empty name = Go name,
+`-` = not named, option `required`) exactly as `lookupFieldTags` / `getDefaultFieldTags` do, and the
+decoder's tag list is the documented priority list filtered by it. -/
+theorem tags_read_as_documented (f : Field) (s : Src) :
+    fieldTagInfos f = Spec.Bind.priority.filterMap (tagOf f) ∧
+    Spec.Bind.named f s = (tagOf f s).bind (fun t => if t.skip then none else some (t.value, t.required)) :=
+  ⟨fieldTagInfos_eq f, named_eq f s⟩
+
+/-- **Priority.** The first source, in documented order, that is named by the field and carries a value is
+the first tag of the decoder's list at which the tag loop stops. -/
+theorem first_source_is_first_hit (f : Field) (r : Req) :
+    Spec.Bind.firstText f r = ((fieldTagInfos f).find? (hitB r)).map (fun t => (t.key, (getter r t.key t.value).1)) ∧
+    Spec.Bind.firstTexts f r = ((fieldTagInfos f).find? (hitS r)).map (fun t => (t.key, sliceGetter r t.key t.value)) :=
+  ⟨firstText_eq f r, firstTexts_eq f r⟩
+
+/-- **JSON pre-bind.** For a field outside the class `json-prebind-extra` whose json tag names `n`, a
+successful pre-bind (folding over the case-insensitively matching members) leaves exactly what the
+specification computes from the members whose key is `n`, and leaves the field untouched when the body
+does not carry `n`. -/
+theorem prebind_is_json_value (f : Field) (r : Req) (pre : FieldVal) (n : Bytes) (q : Bool)
+    (hx : Spec.Bind.clsPrebindExtra f r = false) (hn : Spec.Bind.named f .json = some (n, q))
+    (hfn : jsonFieldName f = some n) (hp : preFieldS false r f = .ok pre) :
+    (Spec.Bind.jsonCarries r n = true → Spec.Bind.jsonValue f.ty r n = .ok pre) ∧
+    (Spec.Bind.jsonCarries r n = false → pre = .unset) :=
+  prebind_some hx hn hfn hp
+
+/-- sonic and `encoding/json` give the same verdict on the body outside the class `sonic-uint32-wrap` -/
+theorem prebind_decoder_independent (r : Req) (fields : List Field)
+    (hc : ∀ f ∈ fields, Spec.Bind.clsSonicU32 f r = false) : preBind true r fields = preBind false r fields :=
+  preBind_sonic r fields hc
+
+/-- **One field.**  `FieldWF f`: the field is not called `-` and no source key occurs twice in its struct tag. -/
+theorem field_refines_spec (f : Field) (r : Req) (pre : FieldVal) (hwf : FieldWF f)
+    (hc : Spec.Bind.fieldClass f r = "") (hp : preFieldS false r f = .ok pre) :
+    (compileField f).run r pre = Spec.Bind.specField f r :=
+  field_refines f r pre hwf hc hp
+
+/-- **Refinement.**  For every list of well-formed field descriptions and every request, outside the four
+classes of known findings, `Bind` (pre-bind, compiled decoders, tag loops) computes exactly what the
+declarative specification says: each field takes the value of the first of path, form, query, cookie,
+header, JSON body that is named in its tags and present; otherwise its default or zero value; unless
+`required`. -/
+theorem bind_refines_spec_partial (fields : List Field) (r : Req) (hwf : ∀ f ∈ fields, FieldWF f)
+    (h : ∀ f ∈ fields, Spec.Bind.fieldClass f r = "") :
+    Hertz.Bind.bind fields r = Spec.Bind.specBind fields r :=
+  bind_refines fields r hwf h
+
+/-- `A int` with the struct tag `query:"-" query:"a" default:"7"` -/
+def dupTagField : Field := { name := [65], ty := tyInt, tags := [(.query, dash), (.query, kA)], dflt := some [55] }
+
+/-- a field called `-` (not a Go identifier) tagged `json:",required"` -/
+def dashNameField : Field := { name := dash, ty := tyInt, tags := [(.json, [44] ++ requiredOpt)] }
+
+set_option maxRecDepth 100000 in
+/-- Without `FieldWF` the refinement is FALSE of the model.  Witness: the source key `query` occurs twice in
+the struct tag; `reflect.StructTag.Lookup` returns the first (`-`), so every tag is skipped and the
+default is dropped (the known finding `dash-only-default`), but the classifier `clsDashOnly` looks at all
+tags and does not put the field in that class. -/
+theorem dup_tag_witness :
+    Spec.Bind.clsSonicU32 dupTagField {} = false ∧ Spec.Bind.clsDashOnly dupTagField = false ∧
+    Spec.Bind.clsJsonDash dupTagField = false ∧ Spec.Bind.clsPrebindExtra dupTagField {} = false ∧
+    Hertz.Bind.bind [dupTagField] {} = .ok [.unset] ∧
+    Spec.Bind.specBind [dupTagField] {} = .ok [.one (.i 7)] := by decide
+
+set_option maxRecDepth 100000 in
+/-- second witness (a modelling artefact: no Go field is called `-`): the decoder treats the json tag with
+an empty name as named `-`, i.e. skipped, yet runs its `required` check under the Go name -/
+theorem dash_name_witness :
+    Spec.Bind.clsSonicU32 dashNameField {} = false ∧ Spec.Bind.clsDashOnly dashNameField = false ∧
+    Spec.Bind.clsJsonDash dashNameField = false ∧ Spec.Bind.clsPrebindExtra dashNameField {} = false ∧
+    Hertz.Bind.bind [dashNameField] {} = .err .required ∧
+    Spec.Bind.specBind [dashNameField] {} = .ok [.unset] := by decide
+
+/-- the refinement as first stated (hypothesis `fieldClass = ""` only) does not hold -/
+theorem bind_refines_spec_fails_at :
+    ¬ ∀ (fields : List Field) (r : Req), (∀ f ∈ fields, Spec.Bind.fieldClass f r = "") →
+        Hertz.Bind.bind fields r = Spec.Bind.specBind fields r := by
+  intro h
+  obtain ⟨h1, h2, h3, h4, hb, hs⟩ := dup_tag_witness
+  have := h [dupTagField] {} (by
+    intro f hf
+    rw [List.mem_singleton] at hf
+    subst hf
+    exact class_empty_of h1 h2 h3 h4)
+  rw [hb, hs] at this
+  cases this
+
+/-- fields of the non-vacuity example: `A int` tagged `query:"a,required" json:"a"`, `B []string` tagged
+`header:"X-B" default:"['z']"`, `C uint32` untagged with default 9 -/
+def exFields : List Field :=
+  [{ name := [65], ty := tyInt, tags := [(.json, kA), (.query, kA ++ [44] ++ requiredOpt)] },
+   { name := [66], ty := { base := .str, slice := true }, tags := [(.header, [88, 45, 66])], dflt := some [91, 39, 122, 39, 93] },
+   { name := [67], ty := { base := .uint 32 }, dflt := some [57] }]
+
+/-- request: header `x-b: v`, `x-b: w`, body `{"a":5,"d":1}` with `Content-Type: Application/JSON` -/
+def exReq : Req :=
+  { headers := [([120, 45, 98], [118]), ([120, 45, 98], [119])], ct := ctMixed,
+    body := .json [(kA, .atom (.int 5)), ([100], .atom (.int 1))] }
+
+set_option maxRecDepth 100000 in
+/-- bind_refines_spec_partial: hypotheses hold on a three-field struct and a request with headers and a
+JSON body; A comes from the body (required query absent), B from the two header values, C from its default -/
+example : (∀ f ∈ exFields, FieldWF f) ∧
+    (∀ f ∈ exFields, Spec.Bind.clsSonicU32 f exReq = false ∧ Spec.Bind.clsDashOnly f = false ∧
+      Spec.Bind.clsJsonDash f = false ∧ Spec.Bind.clsPrebindExtra f exReq = false) ∧
+    Hertz.Bind.bind exFields exReq = .ok [.one (.i 5), .many [some (.s [118]), some (.s [119])], .one (.u 9)] := by decide
+
+set_option maxRecDepth 100000 in
+/-- … and therefore `fieldClass = ""` for each of them -/
+example : ∀ f ∈ exFields, Spec.Bind.fieldClass f exReq = "" := by
+  have h : ∀ f ∈ exFields, Spec.Bind.clsSonicU32 f exReq = false ∧ Spec.Bind.clsDashOnly f = false ∧
+      Spec.Bind.clsJsonDash f = false ∧ Spec.Bind.clsPrebindExtra f exReq = false := by decide
+  intro f hf
+  exact class_empty_of (h f hf).1 (h f hf).2.1 (h f hf).2.2.1 (h f hf).2.2.2
+
+set_option maxRecDepth 100000 in
+/-- header_key_normalisation / getters_are_documented_sources: `x-b` is found under `X-B` -/
+example : H1.normalizeKey false [120, 45, 98] = H1.normalizeKey false [88, 45, 66] ∧
+    getter exReq .header [88, 45, 66] = ([118], true) ∧ sliceGetter exReq .header [88, 45, 66] = [[118], [119]] := by decide
+
+set_option maxRecDepth 100000 in
+/-- prebind_is_json_value / field_refines_spec: hypotheses hold for field A of the example -/
+example : Spec.Bind.named (exFields.headD dupTagField) .json = some (kA, false) ∧
+    jsonFieldName (exFields.headD dupTagField) = some kA ∧
+    preFieldS false exReq (exFields.headD dupTagField) = .ok (.one (.i 5)) ∧
+    Spec.Bind.jsonCarries exReq kA = true := by decide
+
 /-
-TODO-OPEN (not proved; checked per case by the driver on the implementation's output):
-  refinement of the declarative specification,
-    theorem bind_refines_spec (fields : List Field) (r : Req)
-        (h : ∀ f ∈ fields, Spec.Bind.fieldClass f r = "") :
-        bind fields r = Spec.Bind.specBind fields r
-  What is missing: (1) the equivalence of `RequestHeader.Peek`'s key normalisation with
-  case-insensitive comparison (`normalizeKey a = normalizeKey b ↔ ciEq a b`, a table fact),
-  (2) relating the `find?` over the documented priority list to `baseLoop` on `fieldTagInfos f`
-  via `tags_in_priority_order` (the decoder-level theorems above are the per-tag-list core of it),
-  (3) the JSON pre-bind (`preBindMembers` folds over case-insensitively matching members, the spec over
-  exactly matching ones; equal when `clsPrebindExtra` is false).
-  The per-type decoder cache of the real code (a `sync.Map`) and concurrent binds are sampled only.
+TODO-OPEN
+  `bind_refines_spec` is now PROVED as `bind_refines_spec_partial`: for all field lists and requests,
+  `bind fields r = Spec.Bind.specBind fields r` when every field is outside the four known-finding classes
+  (`fieldClass f r = ""`) and well-formed (`FieldWF f`: the Go name is not `-`, no source key occurs twice
+  in the struct tag).  The three pieces that were missing are theorems above: `header_key_normalisation`,
+  `first_source_is_first_hit` (with `tags_read_as_documented`, `getters_are_documented_sources`),
+  `prebind_is_json_value` (with `prebind_decoder_independent`).
+  The statement with `fieldClass = ""` alone is false of the model (`bind_refines_spec_fails_at`): with a
+  repeated source key (`dup_tag_witness`) the real code behaves as the model (known finding
+  `dash-only-default`; the classifier `Spec.Bind.clsDashOnly` does not recognise it because it looks at
+  shadowed tags); `dash_name_witness` is a modelling artefact (`reflect.StructOf` rejects the name `-`).
+  What remains open (not proved; sampled by the driver on the implementation's output):
+  * the per-type decoder cache of the real code (a `sync.Map`) and concurrent binds;
+  * outcomes `unk` are equal on both sides by the theorem, but what the real code does there (floats outside
+    the canonical grammar, JSON texts outside the small grammar) is only copied from the implementation;
+  * nested structs, arrays, maps, `raw_body`, `file_name`, custom decoders: outside the model.
 -/
 
 end Hertz.Props.C15
